@@ -252,6 +252,96 @@ theorem explicit_end_midbody_starts_afresh (b : Mem) (timeout : Nat) (m : TxMode
   rw [this, this, Ctx.run_cmds ops _ rfl]
   simp [Ctx.step, TxSt.begin_]
 
+/-! ### histories with pattern commands (`delete_match` is one of the transactional writes) -/
+
+/-- **Invisible until commit, with pattern commands.**  After any history of regular commands, `delete_match`,
+`scan` and `get_match` inside a transaction, in any mode, an outside reader sees every user key of the store exactly
+as if the transaction did not exist (a `delete_match` touches the store only to take lock keys).  No proviso on time. -/
+theorem invisible_until_commit_with_patterns (K : List Key) (name : Nat → List Char) (b : Mem) (cmds : List TxCmd)
+    (hs : TxSetupC K name b cmds) (mode : TxMode) (id timeout : Nat) (k : Key) (hu : reserved k = false) :
+    ((TxSt.begin_ b mode id timeout).runC name cmds).1.b.view k = ({ b with now := endTimeC b.now cmds } : Mem).view k := by
+  obtain ⟨a, tb, href, _, hb⟩ := reachC hs mode id timeout
+  rw [href.b.ref.2 k, href.user k hu, hb, view_toTtl_now]
+
+/-- **Commit = applying the writes in order, `delete_match` included.**  After commit the store holds, for every
+user key, exactly the value that running the transaction's writes — set, set_many, incr, delete, delete_many,
+expire, DELETE_MATCH — and time advances directly on the store, in order, would have left there, present or absent
+alike, in fast, locked and serializable mode.  In particular a `delete_match` whose pattern matches only keys
+written earlier in the same transaction (no store key) still removes those pending writes (seeded change C03-9
+skipped that in the locked modes), one that matches nothing removes nothing, and one repeated after a matching
+key was written again removes it again (seeded change C13-9). -/
+theorem commit_is_in_order_application_with_patterns (K : List Key) (name : Nat → List Char) (b : Mem) (cmds : List TxCmd)
+    (hs : TxSetupC K name b cmds) (hn : NoDeadlineCrossedC b cmds = true) (mode : TxMode) (id timeout : Nat)
+    (k : Key) (hu : reserved k = false) :
+    (((TxSt.begin_ b mode id timeout).runC name cmds).1.commit.b.view k).map (·.val) =
+      ((b.runC name (writesOfC cmds)).1.view k).map (·.val) := by
+  obtain ⟨a, tb, href, hw, hb, hsim, _⟩ := reachNdcC hs hn mode id timeout
+  obtain ⟨tb', g', _, _, huser⟩ := TxSt.commit_refines href hw
+  have hX := expired_nil_of_fresh href (Nat.le_of_eq (now_of_refC href hw hb).2.1)
+  rw [hX] at huser
+  rw [g'.ref.2 k, huser k hu, commitAt_nil_del, commitAt_vals hsim k]
+  have hd := Mem.good_runC name (writesOfC cmds) hs.good hs.writes.hist
+  rw [hd.ref.2 k, TtlMap.runC_writesOfC name cmds _ (fun c hc => cmdOk_isTxOp (hs.cmds c hc))]
+
+/-- **Rollback is the identity, with pattern commands**: afterwards every key of the store, user key or reserved,
+is what it was before the block (aged): nothing written, nothing deleted by a `delete_match`, no lock key left. -/
+theorem rollback_is_identity_with_patterns (K : List Key) (name : Nat → List Char) (b : Mem) (cmds : List TxCmd)
+    (hs : TxSetupC K name b cmds) (mode : TxMode) (id timeout : Nat) (k : Key) :
+    ((TxSt.begin_ b mode id timeout).runC name cmds).1.rollback.b.view k = ({ b with now := endTimeC b.now cmds } : Mem).view k := by
+  obtain ⟨a, tb, href, _, hb⟩ := reachC hs mode id timeout
+  obtain ⟨tb', g', _, hres, huser⟩ := TxSt.rollback_refines href
+  rw [g'.ref.2 k]
+  cases hr : reserved k with
+  | false => rw [huser k hr, hb, view_toTtl_now]
+  | true =>
+    rw [hres k hr]
+    have h0 := hs.free k hr
+    have hge : b.now ≤ endTimeC b.now cmds := endTime_ge _ b.now
+    have : endTimeC b.now cmds = b.now + (endTimeC b.now cmds - b.now) := by omega
+    unfold Mem.view at h0 ⊢
+    rw [this]
+    show none = Option.filter (fun e => e.live (b.now + (endTimeC b.now cmds - b.now))) (lookup b.store k)
+    rw [Mem.filter_live_adv, h0]; rfl
+
+/-- **After a transaction with pattern commands no lock key survives** (a `delete_match` in the locked modes
+takes one lock per store key it deletes), committed or rolled back. -/
+theorem no_lock_key_survives_with_patterns (K : List Key) (name : Nat → List Char) (b : Mem) (cmds : List TxCmd)
+    (hs : TxSetupC K name b cmds) (mode : TxMode) (id timeout : Nat) (k : Key) (hr : reserved k = true) :
+    ((TxSt.begin_ b mode id timeout).runC name cmds).1.commit.b.view k = none ∧
+    ((TxSt.begin_ b mode id timeout).runC name cmds).1.rollback.b.view k = none := by
+  obtain ⟨a, tb, href, hw, _⟩ := reachC hs mode id timeout
+  obtain ⟨t1, g1, _, r1, _⟩ := TxSt.commit_refines href hw
+  obtain ⟨t2, g2, _, r2, _⟩ := TxSt.rollback_refines href
+  exact ⟨by rw [g1.ref.2 k, r1 k hr], by rw [g2.ref.2 k, r2 k hr]⟩
+
+/-- **The three modes agree on histories with pattern commands** (one task, under the proviso): the same history
+gives the same observed answers in fast, locked and serializable mode and the same values of all user keys after
+commit — although the plain and the lock backend have each their own copy of `delete_match`. -/
+theorem modes_agree_with_patterns (K : List Key) (name : Nat → List Char) (b : Mem) (cmds : List TxCmd)
+    (hs : TxSetupC K name b cmds) (hn : NoDeadlineCrossedC b cmds = true) (m1 m2 : TxMode) (id1 id2 t1 t2 : Nat) :
+    obsAllC K cmds ((TxSt.begin_ b m1 id1 t1).runC name cmds).2 = obsAllC K cmds ((TxSt.begin_ b m2 id2 t2).runC name cmds).2 ∧
+    ∀ k, reserved k = false →
+      (((TxSt.begin_ b m1 id1 t1).runC name cmds).1.commit.b.view k).map (·.val) =
+      (((TxSt.begin_ b m2 id2 t2).runC name cmds).1.commit.b.view k).map (·.val) := by
+  refine ⟨?_, fun k hu => ?_⟩
+  · rw [C04.tx_step_simulates_direct_with_patterns K name b cmds hs hn m1 id1 t1,
+      C04.tx_step_simulates_direct_with_patterns K name b cmds hs hn m2 id2 t2]
+  · rw [commit_is_in_order_application_with_patterns K name b cmds hs hn m1 id1 t1 k hu,
+      commit_is_in_order_application_with_patterns K name b cmds hs hn m2 id2 t2 k hu]
+
+/-- **A block is begin; commands; commit-or-rollback — with pattern commands** (`Ctx.stepC` routes them like
+`Ctx.step (.cmd _)` routes a regular command: to the running transaction). -/
+theorem block_with_patterns_is_run_then_end (name : Nat → List Char) (b : Mem) (timeout : Nat) (m : TxMode)
+    (cmds : List TxCmd) (how : Leave) :
+    let c := ((cmds.foldl (fun c cmd => (c.stepC name cmd).1) ((Ctx.init b timeout).step (.enter m)).1).step (.exit how)).1
+    c.inTx = false ∧
+    c.st.b = (if how.raises then ((TxSt.begin_ b m 1 timeout).runC name cmds).1.rollback
+              else ((TxSt.begin_ b m 1 timeout).runC name cmds).1.commit).b := by
+  have h0 : ((Ctx.init b timeout).step (.enter m)).1.inTx = true := by simp [Ctx.step, Ctx.init]
+  rw [Ctx.runC_in name cmds _ h0]
+  simp only [Ctx.step, Ctx.init, Bool.false_eq_true, if_false]
+  cases how.raises <;> simp [TxSt.begin_]
+
 /-! ### Non-vacuity (the sample transaction of `Props/C04.lean` meets every hypothesis used here) -/
 
 open CashewsVerif.Props.C04 in
@@ -327,5 +417,40 @@ example : ((Ctx.init (Mem.init 10) 80).run [.enter .serializable, .cmd (.set 0 (
 /-- explicit `rollback()` mid-body, a further write, normal exit: only the later segment is committed -/
 example : ((Ctx.init (Mem.init 10) 80).run [.enter .locked, .cmd (.set 0 (.tok 1) none .always), .rollback,
       .cmd (.set 2 (.tok 2) none .always), .exit .ok]).1.st.b.store = [(2, ⟨.tok 2, none⟩)] := by decide
+
+/-! ### Non-vacuity of the theorems with pattern commands -/
+
+open CashewsVerif.Props.C04 in
+example : TxSetupC sampleK sampleName sampleStore sampleCmds ∧ NoDeadlineCrossedC sampleStore sampleCmds = true :=
+  ⟨sampleSetupC, by decide⟩
+
+open CashewsVerif.Props.C04 in
+/-- the committed store of the sample with pattern commands, the same in the three modes: only the key written
+after the last `delete_match` is there; while the block runs in locked mode the store holds one lock key per key
+a command or a `delete_match` touched -/
+example : (∀ mode ∈ [TxMode.fast, .locked, .serializable],
+      ((TxSt.begin_ sampleStore mode 1 80).runC sampleName sampleCmds).1.commit.b.store = [(0, ⟨.int 3, none⟩)]) ∧
+    (((TxSt.begin_ sampleStore .locked 1 80).runC sampleName sampleCmds).1.locks = [7, 5, 3]) := by decide
+
+open CashewsVerif.Props.C04 in
+/-- the writes of the sample: the reads by pattern are not among them, the `delete_match`es are -/
+example : (writesOfC sampleCmds).length = 10 := by decide
+
+open CashewsVerif.Props.C04 in
+/-- witness of the class seeded change C03-9 broke: nothing in the store matches, the pattern matches the keys
+written earlier in the transaction — in every mode the commit leaves only what was written afterwards -/
+example : ∀ mode ∈ [TxMode.fast, .locked, .serializable],
+    ((TxSt.begin_ (Mem.init 1000) mode 1 80).runC sampleName
+      [.op (.set 0 (.tok 1) (some 80) .always), .op (.setMany [(2, .tok 2), (4, .tok 3)] none), .op (.incr 4 1 none),
+       .deleteMatch pAll, .op (.set 4 (.tok 9) none .always)]).1.commit.b.store = [(4, ⟨.tok 9, none⟩)] := by decide
+
+open CashewsVerif.Props.C04 in
+/-- witness of the class seeded change C13-9 broke: store key matching p, `delete_match(p)`, the key written
+again, `delete_match(p)` again — the key is gone inside the transaction and after commit -/
+example : ∀ mode ∈ [TxMode.fast, .locked, .serializable],
+    (fun st : TxSt => ((st.get 0).2, st.commit.b.store))
+      ((TxSt.begin_ sampleStore mode 1 80).runC sampleName
+        [.deleteMatch pAll, .op (.set 0 (.tok 5) none .always), .deleteMatch pAll]).1 = (none, [(4, ⟨.tok 2, some 2⟩)]) := by
+  decide
 
 end CashewsVerif.Props.C03
